@@ -9,6 +9,7 @@ def opText : Op → Str
   | .meas _ _ => ['M']
   | .gate name argLabel _ _ => gateText name argLabel
   | .glob name argLabel => gateText name argLabel
+  | .measNS _ => ['M']
 
 /-- the boxed labels a gate with a target list contributes to wire `q` -/
 def gateLabels (name : Str) (argLabel : Option Str) (targets : List Nat) (controls : Option (List Nat))
@@ -29,6 +30,7 @@ def opLabels (N : Nat) (op : Op) (q : Nat) : List Str :=
   | .meas targets _ => (targets.filter fun t => t = q).map fun _ => ['M']
   | .gate name argLabel targets controls => gateLabels name argLabel targets controls q
   | .glob name argLabel => gateLabels name argLabel (List.range N) none q
+  | .measNS targets => (targets.filter fun t => t = q).map fun _ => ['M']
 
 /-- label with its `ceil(gate_pad)` blanks on both sides -/
 def padded (p : Nat) (t : Str) : Str := rep p ' ' ++ t ++ rep p ' '
@@ -349,5 +351,23 @@ theorem plan_boxes {p N C : Nat} {op : Op} {pl : Plan} (h : plan v p N C op = .o
     split at h
     · exact planGate_boxes h ht q
     · cases h
+  | measNS targets =>
+    simp only [plan] at h
+    split at h
+    · split at h
+      · cases h
+      · cases h
+        have hg : scan none (drawSingleq p ['M']).mid = ([padded p ['M']], none) := drawSingleq_scan p _ (by decide)
+        constructor
+        · intro a ha
+          obtain ⟨w, _, rfl⟩ := List.mem_map.mp ha
+          simp only [hg]
+        · rw [updSingleq_boxes _ _ _ hg]
+          simp only [opLabels, List.map_map]
+          generalize (List.filter (fun t => decide (t = q)) targets) = l
+          induction l with
+          | nil => rfl
+          | cons x l ih => simp only [List.flatMap_cons, List.map_cons, ih]; rfl
+    · split at h <;> cases h
 
 end QipVerif.Render
